@@ -60,28 +60,43 @@ pub fn run(progs: &str, allcuts: bool, out: &str) -> std::io::Result<()> {
             let ws: Vec<(u64, Vec<u8>)> = s.ops.iter().filter_map(|o| if let DevOp::Write { pos, data } = o { Some((*pos, data.clone())) } else { None }).collect();
             (ws, s.write_calls.clone())
         };
-        // reference results on the completed file (if it opens at all)
-        let mut ref_listing = String::new();
-        let mut ref_ops: Vec<(String, String)> = Vec::new();
-        let complete_opens = match E57Reader::new(Dev::from_bytes(complete.clone())) {
-            Ok(mut rd) => {
-                ref_listing = listing(&rd);
+        // reference results: the file as it stands after every top-level finalize of the program (the last one is the
+        // completed file). A prefix of the program run on a fresh device gives the same bytes (writing is deterministic).
+        let fin_calls: Vec<usize> = steps.iter().enumerate().filter(|(_, s)| s["op"] == "finalize").map(|(i, _)| i).collect();
+        struct Ref { call: usize, listing: String, ops: Vec<(String, String)> }
+        let mut refs: Vec<Ref> = Vec::new();
+        let mut complete_opens = false;
+        for (k, fc) in fin_calls.iter().enumerate() {
+            let image = if k + 1 == fin_calls.len() && *fc + 1 == steps.len() {
+                complete.clone()
+            } else {
+                let mut pre = prog.clone();
+                pre["steps"] = Value::Array(steps[..=*fc].to_vec());
+                let d = Dev::new();
+                run_writer(&pre, &d, &mut null);
+                d.snapshot()
+            };
+            if let Ok(mut rd) = E57Reader::new(Dev::from_bytes(image)) {
+                let listing = listing(&rd);
                 let pcs = rd.pointclouds();
+                let mut ops = Vec::new();
                 for op in ops_for(&rd, w.blobs.len()) {
                     let r = outcome(catch(|| exec_op(&mut rd, &op, &pcs, &w.blobs)));
-                    ref_ops.push((op, r));
+                    ops.push((op, r));
                 }
-                true
+                refs.push(Ref { call: *fc, listing, ops });
+                if k + 1 == fin_calls.len() {
+                    complete_opens = true;
+                }
             }
-            Err(_) => false,
-        };
+        }
         t.ev(json!({"ev":"reset","run":pi,"name":prog["name"],"writes":writes.len(),
                     "finalize_in_program": if fin_call.is_some() {1} else {0},
                     "complete_opens": if complete_opens {1} else {0}}));
         // the write sequence in the abstraction of CrashSpec.tla: (page, kind, finalize started)
         // kind: hdr0 placeholder header, hdrF final header, hdrP header with final XML fields but another length,
         // data = the page's final content, part = an earlier version of a page that is rewritten later
-        {
+        if fin_calls.len() <= 1 {
             let fin_len = complete.len() as u64;
             let (xoff, xlen) = if complete.len() >= 48 {
                 (u64::from_le_bytes(complete[24..32].try_into().unwrap()), u64::from_le_bytes(complete[32..40].try_into().unwrap()))
@@ -108,11 +123,15 @@ pub fn run(progs: &str, allcuts: bool, out: &str) -> std::io::Result<()> {
             t.ev(json!({"ev":"c15_writes","whole_pages": if whole_pages {1} else {0},"pages": complete.len() / PAGE,
                         "xml_first": xml_first, "xml_last": xml_last, "writes": ws}));
         }
-        let mut judge = |img: &[u8], wj: usize, cut: usize, n: usize, fin_started: bool, t: &mut TraceOut| {
+        let mut judge = |img: &[u8], wj: usize, cut: usize, n: usize, fin_started: bool, call: usize, t: &mut TraceOut| {
             let r = catch(|| E57Reader::new(Dev::from_bytes(img.to_vec())));
             let (accepted, lsame, ops) = match r {
                 Ok(Ok(mut rd)) => {
                     let l = catch(|| listing(&rd)).unwrap_or_else(|m| format!("panic:{m}"));
+                    // the finalized version this image claims to be: one whose finalize call had at least started
+                    let matched = refs.iter().rev().find(|r| r.call <= call && r.listing == l);
+                    let ref_listing = matched.map(|r| r.listing.clone()).unwrap_or_default();
+                    let ref_ops: &[(String, String)] = matched.map(|r| &r.ops[..]).or(refs.last().map(|r| &r.ops[..])).unwrap_or(&[]);
                     let pcs = rd.pointclouds();
                     let mut classes: Vec<Value> = Vec::new();
                     for op in ops_for(&rd, w.blobs.len()) {
@@ -121,7 +140,7 @@ pub fn run(progs: &str, allcuts: bool, out: &str) -> std::io::Result<()> {
                         let c = if got.starts_with("panic") { "panic" } else if got == "err" { "err" } else if Some(got) == want { "same" } else { "diff" };
                         classes.push(json!([op, c]));
                     }
-                    (1, if l == ref_listing { 1 } else { 0 }, classes)
+                    (1, if matched.is_some() && l == ref_listing { 1 } else { 0 }, classes)
                 }
                 Ok(Err(_)) => (0, 0, vec![]),
                 Err(m) => (2, 0, vec![json!(["open", format!("panic:{m}")])]),
@@ -133,7 +152,8 @@ pub fn run(progs: &str, allcuts: bool, out: &str) -> std::io::Result<()> {
         for (j, (pos, data)) in writes.iter().enumerate() {
             let fin_started = fin_call.map(|f| calls[j] >= f).unwrap_or(false);
             let n = data.len();
-            let cuts: Vec<usize> = if allcuts || (fin_started && *pos == 0) {
+            let coarse = prog["cuts"] == "coarse";
+            let cuts: Vec<usize> = if allcuts || (fin_started && *pos == 0 && !coarse) {
                 (0..n).collect()
             } else {
                 let mut c: Vec<usize> = vec![0, 1, 8, 16, 17, 24, 25, 32, 33, 40, 41, 47, 48, 49, 512, 1019, 1020, 1021, 1023];
@@ -147,7 +167,7 @@ pub fn run(progs: &str, allcuts: bool, out: &str) -> std::io::Result<()> {
                     img.resize(end, 0);
                 }
                 img[*pos as usize..end].copy_from_slice(&data[..c]);
-                judge(&img, j, c, n, fin_started, &mut t);
+                judge(&img, j, c, n, fin_started, calls[j], &mut t);
             }
             let end = *pos as usize + n;
             if cur.len() < end {
@@ -157,7 +177,7 @@ pub fn run(progs: &str, allcuts: bool, out: &str) -> std::io::Result<()> {
         }
         // everything written: this is what remains after the writer is gone
         let fin_done = fin_call.is_some();
-        judge(&cur, writes.len(), 0, 0, fin_done, &mut t);
+        judge(&cur, writes.len(), 0, 0, fin_done, usize::MAX, &mut t);
         t.ev(json!({"ev":"c15_end","final_equals_device": if cur == complete {1} else {0}}));
     }
     use std::io::Write;
